@@ -28,9 +28,12 @@ class C18(core.Property):
             "the ticking store when an answer is owed) and (b) after the round a store knows only what some store knew before. "
             "Proved unconditionally: all per-step clauses, the pre/suffix plumbing, the final clause given UnionAfter "
             "(store_trace_satisfies_spec_given_union), what unionAll knows (unionAll_know), constancy of the peer lists, and the "
-            "induction over the trailing rounds (unionAfter_of_roundFacts: RoundFacts ⇒ UnionAfter). Gap: RoundFacts itself — "
-            "needs the explicit per-key merges of a round (push built, push merged, answer built, answer merged) and a freshness "
-            "invariant (no earlier operation has a not-yet-created message entity n+len as its target), neither proved",
+            "induction over the trailing rounds (unionAfter_of_roundFacts: RoundFacts ⇒ UnionAfter). Gap: RoundFacts itself. Since proved towards it: the "
+            "freshness invariant with its per-step preservation (fresh_next / fresh_run / store_fresh_entities: a message entity not "
+            "yet created has received nothing) and fact (b) for any state that satisfies it (round_learns_only_known: after a lossless "
+            "round a store knows only what some store knew). Still missing: fact (a) (the explicit per-key merges of a round — push "
+            "built, push merged, answer built, answer merged, with the answer-owed branch — and from them the owed knowledge flow), "
+            "and re-running the induction over the rounds with freshness carried along (RoundFacts quantifies over TInv states only)",
     }
     variants = ["repaired", "current"]   # store family: adoption of a peer's key (fixes/C18-store-adopts-remote-node-id)
     quick_cases = 4500
@@ -731,6 +734,8 @@ THEOREMS = [
     "HappyModel.C18.unionAll_know",
     "HappyModel.C18.unionAfter_of_roundFacts",
     "HappyModel.C18.store_trace_satisfies_spec_given_round_facts",
+    "HappyModel.C18.store_fresh_entities",
+    "HappyModel.C18.round_learns_only_known",
 ]
 C18.theorems = THEOREMS
 PROPERTY = C18()
